@@ -547,7 +547,7 @@ func main() {
 			for _, rr := range grid {
 				for _, ss := range grid {
 					for _, v := range vsl {
-						if r.Chance(c.Scale(70, 0)) {
+						if r.Chance(c.Scale(82, 0)) {
 							continue
 						}
 						t := base.clone()
@@ -559,7 +559,7 @@ func main() {
 		}
 	}
 	// random R (valid x coordinate is likely) with boundary S, so that recovery actually succeeds at the S boundaries
-	for i := 0; i < c.Scale(40, 600); i++ {
+	for i := 0; i < c.Scale(30, 600); i++ {
 		s := allSigners()[i%8]
 		t := genTx(r)
 		t.r = new(big.Int).SetBytes(r.Bytes(32))
@@ -788,11 +788,13 @@ func (h *harness) acceptance() {
 	}
 	pcfg := core.DefaultTxPoolConfig
 	pcfg.Journal = ""
+	pooled := map[uint64][]*types.Transaction{} // the objects that went through a pool (their cache is filled under the pool's signer)
 	for _, height := range []uint64{1, 6} {
 		for _, ac := range cases {
 			ch := &fchain{blk: mkBlock(height), st: db}
 			pool := core.NewTxPool(pcfg, &cfg, ch)
 			tx := ac.t.build()
+			pooled[height] = append(pooled[height], tx)
 			obs, a, ok := poolObs(pool, tx)
 			pool.Stop()
 			c.Eval(fmt.Sprintf("pool/h%d/%s/%s", height, strings.SplitN(ac.signed.tok, ":", 2)[0], ac.kind), "")
@@ -860,7 +862,7 @@ func (h *harness) acceptance() {
 	// (b) core.ApplyTransaction and tx.AsMessage(types.MakeSigner(config, height)) on both sides of each fork
 	for _, height := range []uint64{1, 2, 4, 5, 6} {
 		num := new(big.Int).SetUint64(height)
-		for _, ac := range cases {
+		for ci, ac := range cases {
 			tx := ac.t.build()
 			sg := types.MakeSigner(&cfg, num)
 			tbl := ecTable(ac.t, tx, []sgn{eip155(cid)})
@@ -879,32 +881,42 @@ func (h *harness) acceptance() {
 			c.Eval(fmt.Sprintf("apply/h%d/%s/%s", height, strings.SplitN(ac.signed.tok, ":", 2)[0], ac.kind), "")
 			c.Correspond("tx.AsMessage(MakeSigner(cfg,h))~sender_signer(make_signer)", fmt.Sprintf("h=%d %s", height, ac.t.token()), signerTok(sg)+" | "+mobs, ans)
 			// ApplyTransaction
-			st := db.Copy()
-			hdr := mkBlock(height).Header()
-			gp := new(core.GasPool).AddGas(hdr.GasLimit)
-			var used uint64
-			var err error
-			var aobs string
-			var from common.Address
-			okApplied := false
-			p, pv := vh.CatchPanic(func() { _, _, err = core.ApplyTransaction(&cfg, nil, &coinbase, gp, st, hdr, tx, &used, vm.Config{}) })
-			switch {
-			case p:
-				aobs = fmt.Sprintf("panic %v", pv)
-				c.Violate("apply-panic/"+ac.t.token(), "ApplyTransaction panics", map[string]string{"tx": ac.t.token(), "panic": fmt.Sprint(pv)})
-			case err == nil:
-				for a := range funded {
-					if st.GetNonce(a) == 1 {
-						from, okApplied = a, true
+			applyOn := func(tx *types.Transaction) (aobs string, from common.Address, okApplied bool) {
+				st := db.Copy()
+				hdr := mkBlock(height).Header()
+				gp := new(core.GasPool).AddGas(hdr.GasLimit)
+				var used uint64
+				var err error
+				p, pv := vh.CatchPanic(func() { _, _, err = core.ApplyTransaction(&cfg, nil, &coinbase, gp, st, hdr, tx, &used, vm.Config{}) })
+				switch {
+				case p:
+					aobs = fmt.Sprintf("panic %v", pv)
+					c.Violate("apply-panic/"+ac.t.token(), "ApplyTransaction panics", map[string]string{"tx": ac.t.token(), "panic": fmt.Sprint(pv)})
+				case err == nil:
+					for a := range funded {
+						if st.GetNonce(a) == 1 {
+							from, okApplied = a, true
+						}
 					}
+					aobs = "ok " + vh.Hex(from[:])
+				case strings.Contains(err.Error(), "insufficient balance"):
+					aobs = "err funds"
+				case strings.Contains(err.Error(), "could not recover sender") || errors.Is(err, types.ErrInvalidSig) || errors.Is(err, types.ErrInvalidChainId):
+					aobs = classify(err)
+				default:
+					aobs = "err other:" + err.Error()
 				}
-				aobs = "ok " + vh.Hex(from[:])
-			case strings.Contains(err.Error(), "insufficient balance"):
-				aobs = "err funds"
-			case strings.Contains(err.Error(), "could not recover sender") || errors.Is(err, types.ErrInvalidSig) || errors.Is(err, types.ErrInvalidChainId):
-				aobs = classify(err)
-			default:
-				aobs = "err other:" + err.Error()
+				return
+			}
+			aobs, from, okApplied := applyOn(tx)
+			// the same transaction as an object that went through TxPool.AddRemote first (sender cached under
+			// the pool's signer), applied at this height: must behave like the fresh object
+			for _, ph := range []uint64{1, 6} {
+				if got, _, _ := applyOn(pooled[ph][ci]); got != aobs {
+					c.Violate("cache-unsound/pool-then-apply/"+signerTok(sg)+"/"+ac.t.token(), "a transaction object that passed TxPool.AddRemote is applied differently from a fresh copy (sender cached under the pool's signer reused by the state processor)",
+						map[string]string{"path": "pool-then-apply", "pool_height": fmt.Sprint(ph), "apply_height": fmt.Sprint(height), "rlp": vh.Hex(ac.t.rlp()), "got": got, "fresh": aobs})
+				}
+				c.Eval("cache/pool-then-apply", "")
 			}
 			c.Count("apply:" + strings.SplitN(aobs, " 0x", 2)[0])
 			c.Correspond("core.ApplyTransaction~sender_signer(make_signer)", fmt.Sprintf("h=%d %s", height, ac.t.token()), signerTok(sg)+" | "+aobs, expected(ans, funded, false))
@@ -1186,6 +1198,9 @@ func (h *harness) seqOracle(path string, seq []sgn, got []string, fresh map[stri
 func (h *harness) cacheMatrix(idx int, s sgn, signedObj *types.Transaction, signed txv, withModel bool) {
 	c, r := h.c, h.c.Rng
 	set := cacheSigners(s, idx)
+	if !c.Thorough() && idx >= 10 {
+		set = set[:3] // quick tier: the full 5-signer matrix on the first ten signed transactions, {F, H, E(own)} on the rest
+	}
 	for _, va := range cacheVariants(signed, s, idx) {
 		t := va.t
 		fresh := map[string]string{}
@@ -1239,18 +1254,23 @@ func (h *harness) cacheMatrix(idx int, s sgn, signedObj *types.Transaction, sign
 			tx := t.build()
 			first := cachedSender(a, tx)
 			enc, _ := rlp.EncodeToBytes(tx)
-			viaRLP := new(types.Transaction)
-			rlp.DecodeBytes(enc, viaRLP)
-			copies := map[string]*types.Transaction{"rlp-copy": viaRLP}
-			if js, err := tx.MarshalJSON(); err == nil {
-				viaJSON := new(types.Transaction)
-				if viaJSON.UnmarshalJSON(js) == nil {
-					copies["json-copy"] = viaJSON
+			js, jerr := tx.MarshalJSON()
+			copies := map[string]func() *types.Transaction{"rlp-copy": func() *types.Transaction {
+				cp := new(types.Transaction)
+				rlp.DecodeBytes(enc, cp)
+				return cp
+			}}
+			if jerr == nil && new(types.Transaction).UnmarshalJSON(js) == nil {
+				copies["json-copy"] = func() *types.Transaction {
+					cp := new(types.Transaction)
+					cp.UnmarshalJSON(js)
+					return cp
 				}
 			}
-			for name, cp := range copies {
+			for name, mk := range copies {
 				for _, b := range set {
-					if got := cachedSender(b, cp); got != fresh[b.tok] {
+					// a new copy of the cached object per query, so that only inheritance of the cache can show
+					if got := cachedSender(b, mk()); got != fresh[b.tok] {
 						c.Violate("cache-unsound/"+name+"/"+kind(a)+"-then-"+kind(b)+"/"+t.token(), "a copy of a transaction whose sender was cached answers differently from a fresh transaction",
 							map[string]string{"path": name, "sequence": a.tok + ";" + b.tok, "rlp": vh.Hex(t.rlp()), "got": got, "fresh_answer_for_query": fresh[b.tok]})
 					}
